@@ -413,6 +413,10 @@ func runC18(out *vlib.Out, conf c18Conf, ops []c18Op) (model string, impl string
 		ops = nil
 	}
 	for _, op := range ops {
+		if c18Abandon.Load() {
+			return "", "", false
+		}
+		c18Progress.Add(1)
 		w.calls = w.calls[:0]
 		w.setClock(op.now)
 		var o string
@@ -662,16 +666,65 @@ func c18Build(conf c18Conf, syms []c18Sym, r *vlib.Rand) []c18Op {
 	return ops
 }
 
+// ---------------------------------------------------------------------------------------------
+// watchdog: the harness must never hang.  C18 does not claim that the cache is free of deadlocks; a call
+// into the cache that never returns (e.g. a lock taken twice on one path) makes the rest of the history
+// unobservable - no clause of C18 can be evaluated on it, so nothing is reported as a violation.  The
+// harness notes `harness:cache-call-stuck`, abandons the blocked goroutines and ends at once; what the
+// histories completed so far showed (correspondence, oracles) stands.
+
+var (
+	c18Progress atomic.Int64 // bumped after every call into the tester, by every goroutine of the harness
+	c18Abandon  atomic.Bool  // set once a call was found stuck: whoever still runs stops at its next step
+)
+
+const c18StuckLimit = 20 * time.Second // calls take microseconds; nothing in the harness sleeps
+
+// c18Guarded runs body on its own goroutine and returns when it is done, or - false - when no call into
+// the tester has completed for c18StuckLimit.
+func c18Guarded(out *vlib.Out, what string, body func()) bool {
+	done := make(chan struct{})
+	go func() {
+		defer close(done)
+		body()
+	}()
+	last, since := c18Progress.Load(), time.Now()
+	tick := time.NewTicker(250 * time.Millisecond)
+	defer tick.Stop()
+	for {
+		select {
+		case <-done:
+			return true
+		case <-tick.C:
+			if p := c18Progress.Load(); p != last {
+				last, since = p, time.Now()
+			} else if time.Since(since) > c18StuckLimit {
+				c18Abandon.Store(true)
+				out.Count("harness:cache-call-stuck")
+				out.Note(fmt.Sprintf("harness:cache-call-stuck - %s: no call into the liveness tester has returned for %v (a call that never returns: a lock taken twice on one path?). C18 does not claim deadlock-freedom and no clause of it can be evaluated on a history that does not continue: nothing is reported for it, the blocked goroutines are abandoned and the harness ends here", what, c18StuckLimit))
+				return false
+			}
+		}
+	}
+}
+
 var c18Durs = []string{"", "1h", "2h", "3h", "5h", "0s", "-1h", "bogus", "1hh", "90"}
 
 func TestVerifC18(t *testing.T) {
 	out := vlib.Open("C18")
 	defer out.Close()
 	if rp := vlib.Replay(); rp != "" {
-		c18Replay(t, out, rp)
+		c18Guarded(out, "replay", func() { c18Replay(t, out, rp) })
 		return
 	}
+	c18Guarded(out, "TestVerifC18", func() { c18Main(out) })
+}
+
+func c18Main(out *vlib.Out) {
 	run := func(conf c18Conf, syms []c18Sym, r *vlib.Rand) {
+		if c18Abandon.Load() {
+			return
+		}
 		ops := c18Build(conf, syms, r)
 		for attempt := 0; ; attempt++ {
 			m, i, ok := runC18(out, conf, ops)
@@ -875,7 +928,7 @@ func TestVerifC18Race(t *testing.T) {
 	if vlib.Replay() != "" {
 		return
 	}
-	c18Stress(out, vlib.NewRand("C18race"), vlib.Budget(3, 12))
+	c18Guarded(out, "TestVerifC18Race", func() { c18Stress(out, vlib.NewRand("C18race"), vlib.Budget(3, 12)) })
 }
 
 // ---------------------------------------------------------------------------------------------
@@ -991,7 +1044,8 @@ func c18Stress(out *vlib.Out, r *vlib.Rand, rounds int) {
 				wg.Add(1)
 				go func(g int, s uint64) {
 					defer wg.Done()
-					for i := 0; i < ph.iters; i++ {
+					for i := 0; i < ph.iters && !c18Abandon.Load(); i++ {
+						c18Progress.Add(1)
 						s = s*6364136223846793005 + 1442695040888963407
 						h := int((s >> 33) % uint64(ph.nHosts))
 						if ph.mixed {
@@ -1017,6 +1071,9 @@ func c18Stress(out *vlib.Out, r *vlib.Rand, rounds int) {
 				}(g, seeds[g])
 			}
 			wg.Wait()
+			if c18Abandon.Load() {
+				return
+			}
 			out.Checked()
 			// ---- verdicts served during the phase
 			phaseStart := map[int]int{}
